@@ -299,6 +299,7 @@ def run_one(h, prefix, opts):
         "queries": ctx.queries,
         "solver_time": round(ctx.solver_time, 4),
         "branch_unknown": ctx.branch_unknown,
+        "portfolio": ctx.portfolio,
         "realized": ctx.realized,
         "time": round(time.time() - t0, 4),
         "inputs": final,
@@ -376,6 +377,7 @@ class Summary(object):
         self.labels = {}
         self.wall = 0.0
         self.branch_unknown = 0
+        self.portfolio = {}
         self.max_depth = 0
 
     def add(self, rec):
@@ -388,6 +390,8 @@ class Summary(object):
         self.solver_time += rec["solver_time"]
         self.realized += rec["realized"]
         self.branch_unknown += rec["branch_unknown"]
+        for k, v in rec.get("portfolio", {}).items():
+            self.portfolio[k] = self.portfolio.get(k, 0) + v
         if st == "unsupported":
             self.unsupported[rec["msg"]] = self.unsupported.get(rec["msg"], 0) + 1
         for (label, status, t, twin) in rec["obligations"]:
